@@ -7,7 +7,7 @@
     [min burst window] bytes); afterwards the peer closes ([mode] 0), stalls (1) or fails (2).
     [grow] is the reallocation policy of [BytesMut::reserve], only assumed to keep its promise
     ([grow_ok]: the new capacity is at least [len + additional]). *)
-From KV Require Import Bytes RustInt Http1Read Http1ReadOld Http1ReadProofs Http1ReadParseProofs Http1ReadLocalProofs Http1ReadLfProofs Http1ReadBodyProofs.
+From KV Require Import Bytes RustInt Http1Read Http1ReadOld Http1ReadProofs Http1ReadParseProofs Http1ReadLocalProofs Http1ReadLfProofs Http1ReadBodyProofs Http1ReadTermProofs.
 Open Scope N_scope.
 
 (** parse (print g) = g.  [g] ranges over the request grammar [greq_ok]: ANY method token of at most
@@ -147,6 +147,40 @@ Theorem stalled_head : forall grow mode https dh (max_len : nat) limit stream (s
             (e = E_TOO_LONG \/ e = E_UNEXPECTED_END \/ e = E_SYNTAX).
 Proof. exact stalled_lemma. Qed.
 
+(** "... rather than a hang": the loops that read from the connection end by themselves.  In the model a loop that has
+    not ended when its fuel is used up returns [Err E_FUEL]; the fuel is the number of bytes the loop can still get, plus
+    one, and one round of a loop is one [read] of the code.  For EVERY schedule -- any number of 0-byte reads anywhere in
+    it --, every end mode (a peer at end of file answers every further read with 0 bytes), every growth function:
+    the head reader ends with the head or with one of its three errors ... *)
+Theorem head_read_ends : forall grow mode (max_len : nat) stream (sched : list nat),
+  match read_headers grow (S (length stream)) mode max_len [] 512 (mk_reader stream sched) with
+  | Ok _ => True
+  | Err e => e = E_TOO_LONG \/ e = E_UNEXPECTED_END \/ e = E_SYNTAX
+  | Panic => False
+  end.
+Proof. exact head_read_ends_lemma. Qed.
+
+(** ... [read_to_bytes] ends with bytes, as [TimedOut] or as an I/O error ... *)
+Theorem body_read_ends : forall grow mode early (cl limit : N) stream (sched : list nat),
+  match read_to_bytes grow mode early cl limit (mk_reader stream sched) with
+  | Ok _ => True
+  | Err e => e = E_TIMEDOUT \/ e = E_IO
+  | Panic => False
+  end.
+Proof. exact body_read_ends_lemma. Qed.
+
+(** ... and so does every call of every sequence of [read] / [read_to_bytes] / [drain] on a [Http1Body]. *)
+Theorem body_calls_end : forall grow mode early (cl : nat) stream (sched : list nat) (ops : list hop),
+  Forall (fun o : outcome bytes => match o with Ok _ => True | Err e => e = E_TIMEDOUT \/ e = E_IO | Panic => False end)
+         (fst (hb_run grow mode (hb_new early cl) (mk_reader stream sched) ops)).
+Proof. exact body_calls_end_lemma. Qed.
+
+(** The body outcome of a request that was served is never "out of fuel". *)
+Theorem served_body_ends : forall grow mode https dh (max_len : nat) limit stream (sched : list nat) sv,
+  serve grow mode https dh max_len limit stream sched = Ok sv ->
+  match sv_body sv with Ok _ => True | Err e => e = E_TIMEDOUT \/ e = E_IO | Panic => False end.
+Proof. exact serve_body_ends. Qed.
+
 (** [Http1Body::read_to_bytes]: when the [min content_length limit] bytes are delivered, exactly
     they are returned, for every schedule, and the connection keeps everything behind them
     (the next request). *)
@@ -268,6 +302,20 @@ Example stalled_ex :
   contains_two_newlines (firstn (sum_sched [5; 12]%nat) (B "GET / HTTP/1.1" ++ [13; 10; 13; 10])) = false /\
   serve vec_grow 1 false None 64%nat 100 (B "GET / HTTP/1.1" ++ [13; 10; 13; 10]) [5; 12]%nat = Err E_UNEXPECTED_END.
 Proof. vm_compute. split; reflexivity. Qed.
+
+(** a peer that answers with 0 bytes in the middle of the head / of the body: an error resp. what arrived, at once *)
+Example head_read_ends_ex :
+  read_headers vec_grow 19 0 64%nat [] 512 (mk_reader (B "GET / HTTP/1.1" ++ [13; 10; 13; 10]) [5; 0; 0; 20]%nat) = Err E_UNEXPECTED_END.
+Proof. vm_compute. reflexivity. Qed.
+
+Example body_read_ends_ex :
+  exists r', read_to_bytes vec_grow 0 (B "ab") 10 100 (mk_reader (B "cdefghijNEXT") [3; 0; 0; 20]%nat) = Ok (B "abcde", r').
+Proof. eexists. vm_compute. reflexivity. Qed.
+
+Example body_calls_end_ex :
+  fst (hb_run vec_grow 0 (hb_new (B "ab") 10) (mk_reader (B "cde") [3]%nat) [HRead 4; HRead 4; HRead 4; HDrain]) =
+  [Ok (B "ab"); Ok (B "cde"); Ok []; Err E_IO].
+Proof. vm_compute. reflexivity. Qed.
 
 Example body_exact_ex :
   sched_pos [3; 2; 50]%nat /\
